@@ -527,6 +527,12 @@ impl<'tcx> Dumper<'tcx> {
                         o.set("named_id", J::s(&uniq_path(tcx, uv.def)));
                     }
                 }
+                if let Const::Ty(_, ct) = c.const_ {
+                    // a const generic parameter used as a value (`LIMBS`): name it, it has no value before monomorphisation
+                    if let rustc_middle::ty::ConstKind::Param(p) = ct.kind() {
+                        o.set("named", J::s(&format!("cparam:{}", p.name)));
+                    }
+                }
                 if !matches!(ty.kind(), TyKind::FnDef(..)) {
                     match c.const_.eval(tcx, env, c.span) {
                         Ok(cv) => {
